@@ -665,3 +665,32 @@ def r14_5(ctx):
     from .c13 import r13_5
 
     r13_5(ctx)
+
+
+@rule("R14.7", "C14", "a transformation leaves the parse tree it was given unchanged (the trees of the instructions are kept and transformed again by a second call or a second compiler): the transformer derives from lark's copying Transformer, not from an in-place variant", min_instances=1)
+def r14_7(ctx):
+    idx = get_index(ctx.env)
+    ci = idx.cls("RZILTransformer")
+    mod = idx.modules[ci.module]
+    real = {}
+    for n in ast.walk(mod):
+        if isinstance(n, ast.ImportFrom):
+            for a in n.names:
+                real[a.asname or a.name] = (n.module or "", a.name)
+        elif isinstance(n, ast.Import):
+            for a in n.names:
+                real[a.asname or a.name] = (a.name, "")
+    bases = []
+    for b in ci.node.bases:
+        t = U(b)
+        head = t.split(".")[0]
+        m, nm = real.get(head, ("", head))
+        bases.append(f"{m}.{nm}" if t == head else f"{m or head}.{'.'.join(t.split('.')[1:])}")
+    lark_bases = [b for b in bases if b.startswith("lark")]
+    ok = lark_bases and all(b.rsplit(".", 1)[-1] == "Transformer" for b in lark_bases)
+    ctx.check("RZILTransformer derives from lark's (copying) Transformer", bool(ok), "lark.Transformer / lark.visitors.Transformer", str(bases), fn_where(idx, idx.func("RZILTransformer.__init__")))
+    # nobody writes into a parse tree: no store into .children / .data of a tree in the package
+    bad = [f"{fi.qual}:{n.lineno} {U(n)[:60]}" for fi in idx.funcs.values() if ".Tests" not in fi.module for n in ast.walk(fi.node)
+           if isinstance(n, (ast.Assign, ast.AugAssign)) for t in (n.targets if isinstance(n, ast.Assign) else [n.target])
+           if isinstance(t, ast.Attribute) and t.attr in ("children",) or (isinstance(t, ast.Subscript) and isinstance(t.value, ast.Attribute) and t.value.attr == "children")]
+    ctx.check("no function stores into the children of a parse tree", not bad, "trees are read only", "; ".join(bad[:3]) or "none", "rzilcompiler/")
